@@ -51,4 +51,6 @@ def panel (f : Feat) : Panel :=
     prog := prog f,
     ctrl := .uc (Uc.por WIDTH HEIGHT 1 9 false) }
 
+attribute [driver_simp] W sendResolution init updateFrame displayFrame prog
+
 end EpdVerif.Drivers.Epd5in83_v2
